@@ -131,7 +131,7 @@ fn judge(rep: &mut Report, p: &mut Proc, spec: &SysSpec, index: u64, solver_seed
     let replay2 = witness::interpreter_replay(&ctx, &sys, &w);
     let kind = problems[0].kind.clone();
     rep.violation(
-        Role::new(SITE, &format!("{engine};{cfg_name}"), &kind),
+        Role::new(SITE, engine, &kind),
         format!(
             "system #{index} ({}) [{engine} {cfg_name}, solver seed {solver_seed}]: witness is not valid: {}",
             spec.pattern,
@@ -177,7 +177,7 @@ fn check_system(rep: &mut Report, seed: u64, index: u64, solver_seed: u64, tier:
     }
     // pdr (bit-vector systems only: array states are todo!() in pdr)
     let bv_only = spec.states.iter().all(|s| matches!(s.ty, crate::refsmt::Ty::BV(_)));
-    if bv_only && !nonlit {
+    if bv_only {
         let out = run_pdr(&spec, PROFILES[0], index % 2 == 0, 60);
         judge(rep, p, &spec, index, solver_seed, "pdr", &format!("z3/check-sat-assuming;cores={}", index % 2 != 0), out, depth);
     }
